@@ -103,7 +103,8 @@ impl UBig {
     /// Convert an unsigned string to [UBig].
     fn from_str_radix_no_sign(mut src: &str, radix: Digit) -> Result<UBig, ParseError> {
         debug_assert!(radix::is_radix_valid(radix));
-        if src.is_empty() {
+        if src.bytes().all(|b| b == b'_') {
+            // empty, or nothing but digit separators
             return Err(ParseError::NoDigits);
         }
 
